@@ -594,10 +594,22 @@ func checkFresh(t ev.T, test string, c FreshCase) {
 	// signs of life of the holder: completion of the time stamp of the lock directory (acquisition) and of each heart-beat
 	var smu sync.Mutex
 	var signs []time.Time
+	// the first removal of the holder's lock directory by somebody else is the verdict that counts: whatever the other
+	// contenders obtain afterwards (a free lock ...) is its consequence, not a verdict of their own
+	var removedBy string
+	var removedAt, removerBegan time.Time
+	beganOf := map[string]time.Time{} // per contender: when its current call began
 	box.Backend.After = func(op *fsx.Op) {
 		if op.Client == "holder" && op.Kind == "chtimes" && op.Err == "" && strings.HasPrefix(op.Path, lockDir) {
 			smu.Lock()
 			signs = append(signs, time.Unix(0, op.End))
+			smu.Unlock()
+		}
+		if op.Client != "holder" && (op.Kind == "remove" || op.Kind == "removeall") && op.Path == lockDir && op.Err == "" {
+			smu.Lock()
+			if removedBy == "" {
+				removedBy, removedAt, removerBegan = op.Client, time.Unix(0, op.End), beganOf[op.Client]
+			}
 			smu.Unlock()
 		}
 	}
@@ -638,7 +650,7 @@ func checkFresh(t ev.T, test string, c FreshCase) {
 	}
 	var mu sync.Mutex
 	var finding string
-	late := 0
+	late, consequences := 0, 0
 	var wg sync.WaitGroup
 	stop := make(chan struct{})
 	for i, kind := range c.Contenders {
@@ -656,6 +668,9 @@ func checkFresh(t ev.T, test string, c FreshCase) {
 				}
 				what := ""
 				began := time.Now()
+				smu.Lock()
+				beganOf[name] = began
+				smu.Unlock()
 				octx, ocancel := context.WithTimeout(context.Background(), 20*time.Millisecond)
 				switch kind {
 				case "isstale":
@@ -679,8 +694,23 @@ func checkFresh(t ev.T, test string, c FreshCase) {
 				ocancel()
 				if what != "" {
 					age := time.Since(lastSignBefore(began, t0))
+					smu.Lock()
+					rb, ra := removedBy, removedAt
+					smu.Unlock()
 					mu.Lock()
-					if age <= limit {
+					if rb != "" && rb != name {
+						// somebody else had already removed the holder's lock: this result says nothing about staleness
+						consequences++
+					} else if rb == name && kind != "isstale" {
+						// the verdict is the removal: it is dated by the removal, not by the return of the call
+						if age = ra.Sub(lastSignBefore(began, t0)); age <= limit {
+							if finding == "" {
+								finding = fmt.Sprintf("%s: %s, removing the lock directory although the holder's newest sign of life (completed before that call began) was at most %v old at that moment (heart-beat files held up for %d ms; two periods = 100ms)", name, what, age.Round(time.Millisecond), c.DelayMs)
+							}
+						} else {
+							late++
+						}
+					} else if age <= limit {
 						if finding == "" {
 							finding = fmt.Sprintf("%s: %s although the holder's newest sign of life (completed before that call began) was at most %v old when the call returned (heart-beat files held up for %d ms; two periods = 100ms)", name, what, age.Round(time.Millisecond), c.DelayMs)
 						}
@@ -704,6 +734,19 @@ func checkFresh(t ev.T, test string, c FreshCase) {
 	}
 	if late > 0 {
 		ev.Class("stale verdict on a holder whose signs of life were more than 85 ms apart (machine load; not judged)")
+	}
+	if consequences > 0 {
+		ev.Class("result obtained after somebody else had removed the holder's lock (consequence, not judged)")
+	}
+	// a contender that removed the lock without reporting anything (a take-over that lost the race for the free lock) is
+	// judged by its removal too
+	smu.Lock()
+	rb, ra, rbeg := removedBy, removedAt, removerBegan
+	smu.Unlock()
+	if rb != "" && f == "" && late == 0 {
+		if age := ra.Sub(lastSignBefore(rbeg, t0)); !rbeg.IsZero() && age <= limit {
+			ev.Fail(t, prop, test, c, "%s removed the lock directory although the holder's newest sign of life (completed before that call began) was at most %v old at that moment (two periods = 100ms); the holder is alive and has not begun to release", rb, age.Round(time.Millisecond))
+		}
 	}
 	uctx, ucancel := context.WithTimeout(context.Background(), 3*time.Second)
 	_ = holder.Unlock(uctx)
